@@ -35,6 +35,7 @@ fn main() {
         "lockstep" => extra::cmd_lockstep(&args),
         "lowlevel" => extra::cmd_lowlevel(&args),
         "zst" => extra::cmd_zst(&args),
+        "wrappers" => extra::cmd_wrappers(&args),
         "info" => {
             println!("{}", J::obj().set("hooks", J::B(sched::HOOKS_AVAILABLE)).set("debug_assertions", J::B(cfg!(debug_assertions))).render());
             0
